@@ -34,12 +34,15 @@ m = {
         "enable": "go test -c -tags verif (every engine binary is built by ./check with -tags verif against /repo through the replace directive in go.mod)",
         "baseline_off_cmd": "for m in $(cat /w/out/gomods.txt); do MF=$(cd /repo/$m && . /w/out/goenv.sh && gomodflag); (cd /repo/$m && go test $MF -json -vet=off -count=1 -timeout 25m ./...); done",
         "source_commits": hooks_commits,
-        "add_only": True,
+        # all hooks but one only add code; the page-size hook moves one constant (headerBatchCount = 2000) verbatim from
+        # headerhashes.go into headerhashes_batch.go (//go:build !verif) so that verif_headerbatch.go can give it
+        # another value under the tag: one existing line is deleted and re-added elsewhere
+        "add_only": False,
     },
     "engines": [{"name": e, "path": e + "/", "serves_properties": [p for p, r in REGISTRY.items() if e in (r["engine"] if isinstance(r["engine"], list) else [r["engine"]])],
                  "kind_free_text": "deterministic simulation engine (Go test binary driven by ./check; rapid is the sole choice source; plan+tape replay files)"} for e in ENGINES],
     "checks": [],
-    "notes": "Technique family: deterministic simulation with fault injection. See DESIGN.md. Exit 2 of a check = build/watchdog/harness trouble, never a violation. third_party/dbft is a copy of github.com/nspcc-dev/dbft v0.4.0 (the version /repo pins) with one loop made order-deterministic (README.verif there); everything from /repo is built from its current working tree.",
+    "notes": "Technique family: deterministic simulation with fault injection. See DESIGN.md. Exit 2 of a check = build/watchdog/harness trouble, never a violation. third_party/dbft is a copy of github.com/nspcc-dev/dbft v0.4.0 (the version /repo pins) with one loop made order-deterministic (README.verif there); everything from /repo is built from its current working tree. Hooks: all add code only, except that the header hash page size constant was moved into a tag-selected file (2000 without the tag, 16 under it) - hooks.add_only is therefore false.",
     "not_applicable": [],
 }
 for p in ALL:
